@@ -15,6 +15,8 @@ import Proofs.GoTieCliDecrypt
 import Proofs.GoTieCliEncrypt
 import Proofs.GoTieKeygen
 import Proofs.GoTieKeygenMain
+import Proofs.GoTieKeygenModel
+import Proofs.GoTieCliModel
 namespace AgeModel
 namespace Tie.C15
 open Extracted
@@ -153,6 +155,50 @@ theorem keygen_generate_returns {ζ θ ι ρ τ : Type} (G : τ → Go.M (ι × 
     ∃ k t1, G t0 = .ok (k, none, t1) ∧
       ∃ (ts : Bytes) (rc : ρ) (t2 : τ) (n : Int), F2 out GoTie.fmtKeyFile ts rc k t2 = .ok (n, none, t') :=
   GoTie.keygen_generate_returns G Fd IsT stderr Rc F1 Fmt Now F2 out t0 t' h
+
+/-! ## The translated code refines the command-line model of Props/C15
+
+`Cli.execute` / `Cli.krun` (AgeModel/Cli.lean) — the model the theorems of Props/C15 are about — is
+otherwise tied to the tools by the correspondence only. Here the TRANSLATED writing phases are shown
+to be that model's: the outside state is read as the model's process state `Cli.Proc`, a write of
+the source as the model's write to the model's destination. -/
+
+/-- `decrypt`: returns exactly when `execute` reaches `finish`, with the model's final state; ends the process exactly
+    where the model exits 1 (a failed first write, a failed copy, a payload damaged after `n` bytes) -/
+theorem cli_decrypt_refines {ι : Type} (eW : Go.Err) (dest : Cli.Dest) (pt : Bytes) (fa : Option Nat) (ids : List ι) (inp : Bytes)
+    (w : Cli.World) (hm : GoTie.mangled inp = false) (ha : GoTie.armored inp = false) :
+    match main_decrypt (fun b => pure b) (fun _ (_ : List ι) => .ok (pt, none)) (GoTie.mWrite eW dest)
+        (GoTie.mCopy eW dest (match fa with | none => pt | some n => pt.take n) fa.isSome) ids inp ({ w := w } : Cli.Proc) with
+    | .ok p' => Cli.execute dest (.dec (.ok pt fa)) w = p'.finish dest
+    | .error _ => (Cli.execute dest (.dec (.ok pt fa)) w).exit = 1 :=
+  GoTie.cli_decrypt_refines eW dest pt fa ids inp w hm ha
+
+theorem cli_decrypt_refused_refines {ι : Type} (dest : Cli.Dest) (e : Go.Err) (ids : List ι) (inp : Bytes) (w : Cli.World)
+    (hm : GoTie.mangled inp = false) (ha : GoTie.armored inp = false) :
+    main_decrypt (fun b => pure b) (fun _ (_ : List ι) => .ok ([], some e)) (fun (_ : Cli.Proc) _ => .error (.panic 77))
+        (fun _ _ => .error (.panic 78)) ids inp ({ w := w } : Cli.Proc) = .error (.panic 1001) ∧
+      Cli.execute dest (.dec .headerRefused) w = ⟨1, w, []⟩ :=
+  GoTie.cli_decrypt_refused_refines dest e ids inp w hm ha
+
+/-- `age-keygen -y`: the translated loop is `Cli.kwriteLines` over the recipient lines -/
+theorem keygen_convert_refines {ι : Type} (eW : Go.Err) (rcOf : ι → Bytes) (ids : List ι) (hne : ids ≠ [])
+    (inp : Bytes) (out : Cli.KDest) (p : Cli.Proc) :
+    main_convert (fun _ t => .ok (ids, none, t)) (fun _ => true) (fun id t => .ok (rcOf id, t)) (GoTie.kFprintfLine eW) inp out p =
+      match Cli.kwriteLines out p (ids.map fun id => rcOf id ++ [10]) with
+      | (p', true) => .ok p'
+      | (_, false) => .error (.panic 1003) :=
+  GoTie.keygen_convert_refines eW rcOf ids hne inp out p
+
+/-- `age-keygen`: the translated `generate` is `Cli.kwriteLines` of the one key-file text -/
+theorem keygen_generate_refines {ι θ : Type} (eW : Go.Err) (text : Bytes) (k : ι) (fd : Int) (isTerm : Bool) (rc ts : Bytes)
+    (now : θ) (e1 : Option Go.Err) (n1 : Int) (stderr out : Cli.KDest) (p : Cli.Proc) :
+    main_generate (fun t => .ok (k, none, t)) (fun _ t => .ok (fd, t)) (fun _ t => .ok (isTerm, t)) stderr
+        (fun _ t => .ok (rc, t)) (fun _ _ _ t => .ok (n1, e1, t)) (fun _ _ t => .ok (ts, t)) (fun t => .ok (now, t))
+        (GoTie.kFprintfKey eW text) out p =
+      match Cli.kwriteLines out p [text] with
+      | (p', true) => .ok p'
+      | (_, false) => .error (.panic 1001) :=
+  GoTie.keygen_generate_refines eW text k fd isTerm rc ts now e1 n1 stderr out p
 
 end Tie.C15
 end AgeModel
